@@ -64,6 +64,17 @@ fn gen_request(r: &mut Rng, budget: usize, seq_no: usize) -> HostileReq {
     if let Some(n) = bloat {
         spec.extra.push((2000, vec![0x62; n]));
     }
+    // well-formed size announcements (RFC 7959 section 4) and other options a server might act on
+    if r.chance(1, 5) {
+        let v = *r.pick(&[0u64, 100, 16384, 17000, 65536, 300_000, 0xffff_ffff]);
+        spec.extra.push((60, crate::optval::min_be(v)));
+    }
+    if r.chance(1, 10) {
+        spec.extra.push((28, crate::optval::min_be(*r.pick(&[0u64, 1000, 1 << 20]))));
+    }
+    if r.chance(1, 10) {
+        spec.extra.push((6, vec![]));
+    }
     spec.extra.sort_by_key(|o| o.0);
     let plen = match r.below(6) {
         0 => 0,
@@ -233,7 +244,8 @@ fn run_sequence(rep: &mut Report, r: &mut Rng, level: u32, directed_margin: Opti
                 rep.violation("delivered-body-exceeds-bound", format!("application received {} bytes after {} requests carrying {} bytes", seen.len(), e.1, e.0), witness());
                 return;
             }
-            *e = (0, 0);
+            // (the tally is never reset: a plain request that reaches the application does not
+            // consume the buffered upload, so the bound stays cumulative per key - weaker but sound)
         }
         if cfg!(has_block_hook) {
             // after the call: the entry may have been handed over (None)
@@ -348,6 +360,13 @@ fn directed_window(rep: &mut Report, r: &mut Rng, rounds: usize) {
             }
             spec.block1 = Some((num as u32, true, szx));
             spec.payload = vec![0x5a; plen];
+            if step == 0 || r.chance(1, 4) {
+                // announce a (large) total size with the block
+                let v = *r.pick(&[17000u64, 100_000, 300_000, 0xffff_ffff]);
+                if r.bool() {
+                    spec.extra.push((60, crate::optval::min_be(v)));
+                }
+            }
             hist.push(spec.describe());
             let mut req = CoapRequest::from_packet(Packet::from_bytes(&spec.bytes()).unwrap(), CEp::new(1));
             let ex = server.exchange_request(&mut req, &mut app);
